@@ -15,8 +15,8 @@ namespace NS
 
 def statefulKinds : List String := ["map", "slice", "pointer", "sync", "struct", "other"]
 
-def knownPackageState : List (String × String) :=
-  [("internal/cmd", "checkCmd"), ("internal/cmd", "lspCmd"), ("internal/cmd", "rootCmd")]
+/-- (cobra's command objects are listed with the kind `cobra`, whatever their names: configuration, not state) -/
+def knownPackageState : List (String × String) := []
 
 def statefulIn (pkgs : List String) : List (String × String) :=
   (packageStateTable.filter (fun e => pkgs.contains e.1 && statefulKinds.contains e.2.2)).map (fun e => (e.1, e.2.1))
